@@ -1,5 +1,5 @@
 // Native check of a results file written by the real binary against the statements of C10 / C14 / C19 that need no model:
-//   h5_run_check <file.h5> <steps_per_Ts> <outstep> <rotations> [expect_rf_rows 0|1]
+//   h5_run_check <file.h5> <steps_per_Ts> <outstep> <rotations> [expect_rf_rows 0|1] [axis]
 // (1) every time-indexed dataset has as many records as /Info/AxisValues_t;
 // (2) the time axis lists every outstep-th step from 0 and then the final step, in units of synchrotron periods
 //     (final step = ceil(steps*rotations), or earlier if the run was interrupted: then only monotonicity and the step grid are required);
@@ -18,6 +18,7 @@ int main(int argc, char** argv) {
     H5::Exception::dontPrint();
     H5::H5File f(argv[1], H5F_ACC_RDONLY);
     double steps = atof(argv[2]); long outstep = atol(argv[3]); double rot = atof(argv[4]); bool rf = argc > 5 && atoi(argv[5]);
+    bool axis_only = argc > 6 && std::string(argv[6]) == "axis";     // record counts and time axis only
     auto dims = [&](const char* name) { std::vector<hsize_t> d; try { H5::DataSet ds = f.openDataSet(name); H5::DataSpace sp = ds.getSpace(); d.resize(sp.getSimpleExtentNdims()); sp.getSimpleExtentDims(d.data()); } catch (...) {} return d; };
     auto rd = [&](const char* name) { std::vector<float> v; try { H5::DataSet ds = f.openDataSet(name); H5::DataSpace sp = ds.getSpace(); std::vector<hsize_t> d(sp.getSimpleExtentNdims()); sp.getSimpleExtentDims(d.data()); size_t n = 1; for (auto x : d) n *= x; v.resize(n); if (n) ds.read(v.data(), H5::PredType::NATIVE_FLOAT); } catch (...) {} return v; };
     auto t = rd("/Info/AxisValues_t");
@@ -38,9 +39,12 @@ int main(int argc, char** argv) {
     }
     // CSR rows
     auto sp = rd("/CSR/Spectrum/data"); auto in = rd("/CSR/Intensity/data"); auto ax = rd("/Info/AxisValues_f"); auto dsp = dims("/CSR/Spectrum/data");
-    if (dsp.size() == 3 && ax.size() >= 2) { size_t nb = dsp[1], nf = dsp[2]; double df = ax[1] - ax[0];
+    if (!axis_only && dsp.size() == 3 && ax.size() >= 2) { size_t nb = dsp[1], nf = dsp[2]; double df = ax[1] - ax[0];
         for (size_t r = 0; r < dsp[0] && r * nb < in.size(); r++) for (size_t b = 0; b < nb; b++) { double s = 0; for (size_t i = 0; i < nf; i++) s += sp[(r * nb + b) * nf + i];
-            double want = in[r * nb + b]; if (std::fabs(s * df - want) > 2e-3 * std::fabs(want) + 1e-30) { if (bad < 12) printf("MISMATCH record %zu bunch %zu: delta_f*sum(spectrum) = %.6g, stored intensity %.6g\n", r, b, s * df, want); bad++; } } }
+            // the intensity also contains the Nyquist bin, which the file does not store (open known finding of C10): allow for a
+            // bin of about the size of the last stored one
+            double nyq = 2 * df * std::fabs(sp[(r * nb + b) * nf + nf - 1]);
+            double want = in[r * nb + b]; if (std::fabs(s * df - want) > 2e-3 * std::fabs(want) + nyq + 1e-30) { if (bad < 12) printf("MISMATCH record %zu bunch %zu: delta_f*sum(spectrum) = %.6g, stored intensity %.6g\n", r, b, s * df, want); bad++; } } }
     if (rf) { auto d = dims("/RFKicks/data"); long lastrec = nt ? std::lround(t[nt - 1] * steps) : 0;
         if (d.empty() || (long)d[0] != lastrec) { printf("MISMATCH /RFKicks/data has %lld rows, %ld steps were executed\n", d.empty() ? -1LL : (long long)d[0], lastrec); bad++; } }
     printf("h5_run_check: %d inconsistencies (%zu records)\n", bad, nt);
